@@ -94,7 +94,9 @@ func c12Tally(teamVote, mode int) {
 	}
 	must(k.VoteCountsByGroup.Set(ctx, id, vc))
 
-	// exact scores, scaled by the common denominator D = product of the non-zero sums
+	// exact scores, scaled by the common denominator D = product of the non-zero sums.
+	// Two variants: over all participating groups (the statement's formula), and without the token holders (what
+	// the code uses when team + users + reporters alone reach the quorum - known finding C12-F2).
 	groups := []c12Group{users, reps, holders}
 	D := math.OneInt()
 	for _, g := range groups {
@@ -102,10 +104,10 @@ func c12Tally(teamVote, mode int) {
 			D = D.MulRaw(int64(g.sum))
 		}
 	}
-	score := func(pick func(g c12Group) uint64, teamIs int) math.Int {
+	score := func(pick func(g c12Group) uint64, teamIs int, withHolders bool) math.Int {
 		sc := math.ZeroInt()
-		for _, g := range groups {
-			if g.sum > 0 {
+		for gi, g := range groups {
+			if g.sum > 0 && (withHolders || gi != 2) {
 				sc = sc.Add(D.QuoRaw(int64(g.sum)).Mul(math.NewIntFromUint64(pick(g))))
 			}
 		}
@@ -114,16 +116,30 @@ func c12Tally(teamVote, mode int) {
 		}
 		return sc
 	}
-	sS := score(func(g c12Group) uint64 { return g.s }, 1)
-	sA := score(func(g c12Group) uint64 { return g.a }, 2)
-	sI := score(func(g c12Group) uint64 { return g.i }, 3)
+	pS := func(g c12Group) uint64 { return g.s }
+	pA := func(g c12Group) uint64 { return g.a }
+	pI := func(g c12Group) uint64 { return g.i }
+	sS, sA, sI := score(pS, 1, true), score(pA, 2, true), score(pI, 3, true)
+	tS, tA, tI := score(pS, 1, false), score(pA, 2, false), score(pI, 3, false)
+	// stage one: team + users + reporters alone reach 51% (exact: 25*(team + u/U + r/R) >= 51), with the tally's
+	// fixed-point band of 4*10^-6 percent treated as "either"
+	T1 := math.NewIntFromUint64(users.total).Mul(math.NewIntFromUint64(reps.total))
+	p1 := math.NewIntFromUint64(users.sum).Mul(math.NewIntFromUint64(reps.total)).Add(math.NewIntFromUint64(reps.sum).Mul(math.NewIntFromUint64(users.total)))
+	if teamVote > 0 {
+		p1 = p1.Add(T1)
+	}
+	stage1 := p1.MulRaw(25).GTE(T1.MulRaw(51))
+	stage1Clear := p1.MulRaw(25).MulRaw(1000000).GTE(T1.MulRaw(51).MulRaw(1000000).Add(T1.MulRaw(4)))
+	holdersIgnored := ndAnd(stage1, holders.sum > 0)
 	// a tie (or a difference below the tally's 10^-6 resolution) between the two leading choices
 	top2Close := func(x, y, z math.Int) bool {
-		// x and y lead, and |x - y| * 10^6 < 4 * D
 		lead := ndAnd(x.GTE(z), y.GTE(z))
 		return ndAnd(lead, x.Sub(y).Abs().MulRaw(1000000).LT(D.MulRaw(4)))
 	}
-	nearTie := ndOr(top2Close(sS, sA, sI), ndOr(top2Close(sS, sI, sA), top2Close(sA, sI, sS)))
+	tie3 := func(x, y, z math.Int) bool {
+		return ndOr(top2Close(x, y, z), ndOr(top2Close(x, z, y), top2Close(y, z, x)))
+	}
+	nearTie := ndOr(tie3(sS, sA, sI), ndAnd(stage1, tie3(tS, tA, tI)))
 
 	err := k.TallyVote(ctx.WithBlockTime(now), id)
 	// known finding C12-F1 / C02-F2: equal (or 10^-6-close) leading scores are not decided: "no majority"
@@ -164,9 +180,18 @@ func c12Tally(teamVote, mode int) {
 	isA := res == types.VoteResult_AGAINST || res == types.VoteResult_NO_QUORUM_MAJORITY_AGAINST
 	isI := res == types.VoteResult_INVALID || res == types.VoteResult_NO_QUORUM_MAJORITY_INVALID
 	if nVoters > 0 {
-		ndAssert(ndImplies(isS, ndAnd(sS.GTE(sA), sS.GTE(sI))), "support-wins-only-with-a-maximal-score")
-		ndAssert(ndImplies(isA, ndAnd(sA.GTE(sS), sA.GTE(sI))), "against-wins-only-with-a-maximal-score")
-		ndAssert(ndImplies(isI, ndAnd(sI.GTE(sS), sI.GTE(sA))), "invalid-wins-only-with-a-maximal-score")
+		// the statement's formula: maximal over ALL participating groups. Known finding C12-F2: when team + users +
+		// reporters alone reach the quorum the token holders' votes are left out of the scores.
+		ndAssertK(ndImplies(isS, ndAnd(sS.GTE(sA), sS.GTE(sI))), "support-wins-only-with-a-maximal-score", "C12-F2", holdersIgnored)
+		ndAssertK(ndImplies(isA, ndAnd(sA.GTE(sS), sA.GTE(sI))), "against-wins-only-with-a-maximal-score", "C12-F2", holdersIgnored)
+		ndAssertK(ndImplies(isI, ndAnd(sI.GTE(sS), sI.GTE(sA))), "invalid-wins-only-with-a-maximal-score", "C12-F2", holdersIgnored)
+		// characterisation inside the region: then the winner is maximal over team + users + reporters
+		if stage1Clear {
+			okS := ndImplies(isS, ndAnd(tS.GTE(tA), tS.GTE(tI)))
+			okA := ndImplies(isA, ndAnd(tA.GTE(tS), tA.GTE(tI)))
+			okI := ndImplies(isI, ndAnd(tI.GTE(tS), tI.GTE(tA)))
+			ndAssert(ndAnd(okS, ndAnd(okA, okI)), "stage-one-quorum-winner-is-maximal-over-team-users-reporters")
+		}
 	}
 	dd, derr := k.Disputes.Get(ctx, id)
 	ndAssert(derr == nil && (dd.DisputeStatus == types.Resolved || dd.DisputeStatus == types.Unresolved), "status-moves-forward-from-voting")
